@@ -27,6 +27,15 @@ CHECKS = {
  "C13": dict(engine="oci", tech="TLA+ spec (Container.OciApply) with theorems SetWins/Removes/Frame checked by TLC; TLC-enumerated + random (spec, adjustment) pairs replayed on the real generator x R repetitions; TLC trace validation (Trace_Oci)",
    text="OciApply is the specification of Generator.Adjust; TLC checks on every enumerated pair that a set wins over a removal in any list order, that removals take effect and that nothing unnamed changes; every pair is applied 16 (quick) / 64 (thorough) times by the real generator on fresh copies and each result must equal OciApply, the rest of the spec must be unchanged, mounts must come parents-first and all repetitions must be identical (labels C13-result, C13-frame, C13-mount-order, C13-determinism).",
    ref="5/C13", note="Trusted base: TLC; harness/abs OCI projection; device cgroup allow rules added with devices are not compared; rshared/rslave mount options (host mountinfo) are outside the domain."),
+ "C06": dict(engine="relay", tech="TLA+ spec (Relay) model-checked by TLC over all interleavings (MC_Relay); executions of the real Adaptation recorded through verif hook points and validated by TLC (Trace_Relay)",
+   text="MC_Relay explores every interleaving of concurrent callers, the accept loop, a failing plugin, handler errors and an unsolicited update (invariants Sorted, OncePerRequest, CommonOrder, Delivered, VisitedOK; liveness AllDone/RegsEnd). Recorded concurrent runs of the real code (random indices incl. duplicates, random and - thorough - all 8192 masks, all 13 request kinds, plugins joining and leaving) must be behaviours of Relay: each delivery must be the next subscribed live plugin of the order fixed at lock time, for the request holding the lock; every caller's result must carry exactly its own request's tags.",
+   ref="5/C06", note="Trusted base: TLC; log order = append order under one recorder mutex with the before/after logging discipline (DESIGN R2); races are sampled (seeded perturbation at hook points), interleaving exhaustiveness comes from the TLC model."),
+ "C08": dict(engine="relay", tech="TLA+ spec (Relay sync lock) model-checked by TLC incl. a negative control; recorded executions with racing registrations and creations validated by TLC",
+   text="ExactlyOnce and HeldBlocksSync are model-checked over all interleavings (and a mutated model without sync blocks must violate ExactlyOnce - vacuity guard). In recorded runs of the real code every sync.exclusive must find no sync block held, every block.acquired no registration in progress, every store.add / activation must satisfy snapshot XOR creation-relayed for each live active subscribed plugin, and registrations must complete once blocks are released.",
+   ref="5/C08", note="Assumes the runtime performs creation and bookkeeping inside one sync block (the harness' runtime does). Same trusted base as C06."),
+ "C19": dict(engine="relay", tech="TLA+ spec (Relay adaptation lock) model-checked by TLC; recorded executions with concurrent unsolicited updates validated by TLC",
+   text="CallbackExclusive is model-checked; in recorded runs the update callback must run only while the adaptation lock is held by that update (never overlapping a request, an activation or another update), exactly once per call with the payload sent, and the plugin must get back exactly the callback's failed list or error. A stub that was never started must answer ErrNoService at once (checked by the driver's preamble event).",
+   ref="5/C19", note="Same trusted base as C06."),
 }
 NA = {
  "C12": "byte-level encode/decode fidelity of two generated protobuf codecs has no state or transition content a TLA+ specification could add to; see DESIGN.md section 7",
@@ -70,6 +79,8 @@ m = {
  "engines": [
    {"name": "oci", "path": "/verif/lib/oci.py", "serves_properties": ["C13"],
     "kind_free_text": "TLC (tla/Gen_Oci) + replay on pkg/runtime-tools/generate (harness/ocidrv) + TLC trace validation (tla/Trace_Oci)"},
+   {"name": "relay", "path": "/verif/lib/relay.py", "serves_properties": ["C06", "C08", "C19"],
+    "kind_free_text": "TLC model checking (tla/MC_Relay over tla/Relay), recording driver (harness/relaydrv, hooks pkg/vhook), TLC trace validation (tla/Trace_Relay)"},
    {"name": "adjust", "path": "/verif/lib/adjust.py", "serves_properties": ["C01", "C02", "C03", "C04", "C05"],
     "kind_free_text": "TLC model checking + scenario emission (tla/Gen_Adjust), replay on the real code (harness/adjdrv), TLC trace validation (tla/Trace_Adjust)"},
  ],
